@@ -1,149 +1,7 @@
-(* C05 — round robin across the uint32 wrap. *)
+(* C05 — round robin: exact visit counts for every value of the uint32 counter (the wrap included). *)
 Require Import V.Lib V.C05_Model V.C05_Proofs.
 From Coq Require Import Lia ZifyBool ZifyN ZifyNat.
 Open Scope N_scope.
-
-(* the probe sequence of RoundRobin.Select, for ANY counter value (wrap included) *)
-Definition rr_idxs (n : N) (robin : N) (steps : nat) : list nat :=
-  map (fun i => N.to_nat (((robin + 1 + N.of_nat i) mod U32) mod n)) (seq 0 steps).
-
-Lemma U32_pos : 0 < U32. Proof. reflexivity. Qed.
-
-Lemma succ_mod_U32 robin k : ((robin + 1) mod U32 + 1 + k) mod U32 = (robin + 1 + 1 + k) mod U32.
-Proof.
-  replace ((robin + 1) mod U32 + 1 + k) with ((robin + 1) mod U32 + (1 + k)) by lia.
-  rewrite N.add_mod_idemp_l by discriminate. f_equal. lia.
-Qed.
-
-Lemma rr_loop_exact av n : forall steps robin,
-  fst (rr_loop av n robin steps) = probe_seq av (rr_idxs n robin steps) /\
-  (fst (rr_loop av n robin steps) = None -> snd (rr_loop av n robin steps) = (robin + N.of_nat steps) mod U32 \/ steps = 0%nat).
-Proof.
-  induction steps as [|k IH]; intros robin.
-  - cbn. split; [reflexivity|]. intros _. right. reflexivity.
-  - cbn [rr_loop]. unfold rr_idxs. cbn [seq map probe_seq]. change (N.of_nat 0) with 0. rewrite N.add_0_r.
-    destruct (nth (N.to_nat (((robin + 1) mod U32) mod n)) av false) eqn:E.
-    + cbn. split; [reflexivity|discriminate].
-    + destruct (IH ((robin + 1) mod U32)) as [H1 H2]. split.
-      * rewrite H1. unfold rr_idxs. rewrite <- seq_shift, map_map. f_equal.
-        apply map_ext. intros a. rewrite succ_mod_U32. do 3 f_equal. lia.
-      * intros HN. left. destruct (H2 HN) as [->| ->].
-        -- rewrite N.add_mod_idemp_l by discriminate. f_equal. lia.
-        -- cbn. reflexivity.
-Qed.
-
-(* EXACT completeness, wrap included: a host is returned iff one of the n probed slots is available *)
-Theorem rr_complete_exact av robin :
-  fst (rr_select av robin) <> None <->
-  exists k, (k < length av)%nat /\
-    nth (N.to_nat (((robin + 1 + N.of_nat k) mod U32) mod N.of_nat (length av))) av false = true.
-Proof.
-  unfold rr_select. destruct (rr_loop_exact av (N.of_nat (length av)) (length av) robin) as [-> _].
-  split.
-  - intros H. destruct (probe_seq av _) as [i|] eqn:P; [|congruence].
-    apply probe_seq_sound in P as [Hi Hin]. unfold rr_idxs in Hin.
-    apply in_map_iff in Hin as (k & <- & Hk). apply in_seq in Hk. exists k. split; [lia|exact Hi].
-  - intros (k & Hk & Hn). eapply probe_seq_complete; [|exact Hn].
-    unfold rr_idxs. apply in_map_iff. exists k. split; [reflexivity|apply in_seq; lia].
-Qed.
-
-(* pool sizes that divide 2^32 (1, 2, 4, 8, ...): x mod 2^32 mod n = x mod n *)
-Lemma mod_mod_divides x n : n <> 0 -> U32 mod n = 0 -> (x mod U32) mod n = x mod n.
-Proof.
-  intros Hn Hd. apply N.mod_divide in Hd; [|exact Hn]. destruct Hd as [q Hq].
-  rewrite Hq. rewrite (N.mul_comm q n).
-  assert (Hq0 : q <> 0) by (intros ->; rewrite N.mul_0_l in Hq; discriminate).
-  rewrite N.mod_mul_r by assumption.
-  rewrite (N.mul_comm n ((x / n) mod q)), N.mod_add by exact Hn. apply N.mod_mod. exact Hn.
-Qed.
-
-Theorem rr_complete_divides av robin :
-  U32 mod N.of_nat (length av) = 0 ->
-  existsb (fun b => b) av = true -> fst (rr_select av robin) <> None.
-Proof.
-  intros Hd H. apply rr_complete_exact.
-  apply existsb_exists in H as (b & Hin & ->).
-  apply In_nth with (d := false) in Hin as (j & Hj & Hn).
-  assert (Hn0 : N.of_nat (length av) <> 0) by lia.
-  destruct (lin_hit (N.of_nat (length av)) (robin + 1) (N.of_nat j)) as (i & Hi & Hm); [lia|lia|].
-  exists (N.to_nat i). split; [lia|].
-  rewrite mod_mod_divides by assumption. rewrite N2Nat.id, Hm, Nat2N.id. exact Hn.
-Qed.
-
-(* what the wrap costs any other pool: at most the one Select that straddles it; the next one,
-   which starts right after the wrap, finds a host *)
-Theorem rr_miss_then_hit av robin :
-  robin < U32 -> N.of_nat (length av) + N.of_nat (length av) <= U32 ->
-  existsb (fun b => b) av = true ->
-  fst (rr_select av robin) = None ->
-  U32 <= robin + N.of_nat (length av) /\
-  snd (rr_select av robin) = robin + N.of_nat (length av) - U32 /\
-  fst (rr_select av (snd (rr_select av robin))) <> None.
-Proof.
-  intros Hr Hn He Hmiss.
-  assert (Hw : U32 <= robin + N.of_nat (length av)).
-  { destruct (N.le_gt_cases U32 (robin + N.of_nat (length av))) as [|Hlt]; [assumption|].
-    exfalso. exact (rr_complete_nowrap av robin Hlt He Hmiss). }
-  assert (Hlen : (0 < length av)%nat).
-  { destruct av; [cbn in He; discriminate|cbn; lia]. }
-  unfold rr_select in *.
-  destruct (rr_loop_exact av (N.of_nat (length av)) (length av) robin) as [_ H2].
-  destruct (H2 Hmiss) as [Hs|Hs]; [|lia].
-  assert (Hs' : snd (rr_loop av (N.of_nat (length av)) robin (length av)) = robin + N.of_nat (length av) - U32).
-  { rewrite Hs. symmetry. apply N.mod_unique with (q := 1); lia. }
-  split; [exact Hw|]. split; [exact Hs'|].
-  rewrite Hs'. apply (rr_complete_nowrap av); [lia|exact He].
-Qed.
-
-(* ---------- evenness, wrap included ---------- *)
-Theorem rr_all_up_any av robin :
-  (0 < length av)%nat -> forallb (fun b => b) av = true ->
-  rr_select av robin =
-  (Some (N.to_nat (((robin + 1) mod U32) mod N.of_nat (length av))), (robin + 1) mod U32).
-Proof.
-  intros Hn Hall. unfold rr_select. destruct (length av) as [|k] eqn:E; [lia|].
-  cbn [rr_loop].
-  assert (Hlt : (N.to_nat (((robin + 1) mod U32) mod N.of_nat (S k)) < length av)%nat).
-  { rewrite E. pose proof (N.mod_lt ((robin + 1) mod U32) (N.of_nat (S k)) ltac:(lia)). lia. }
-  rewrite forallb_forall in Hall.
-  rewrite (Hall _ (nth_In av false Hlt)). reflexivity.
-Qed.
-
-(* with all hosts up the k-th selection is slot ((robin + k) mod 2^32) mod n, for EVERY counter value *)
-Theorem rr_run_all_up_any av : forall m robin,
-  (0 < length av)%nat -> forallb (fun b => b) av = true ->
-  rr_run av robin m = map Some (rr_idxs (N.of_nat (length av)) robin m).
-Proof.
-  induction m as [|k IH]; intros robin Hn Hall; [reflexivity|].
-  cbn [rr_run]. rewrite rr_all_up_any by auto. rewrite IH by auto.
-  unfold rr_idxs. cbn [seq map]. change (N.of_nat 0) with 0. rewrite N.add_0_r. f_equal.
-  rewrite <- seq_shift, !map_map. apply map_ext. intros a.
-  rewrite succ_mod_U32. do 4 f_equal. lia.
-Qed.
-
-(* pool size divides 2^32: every window of n selections visits every host, ALSO across the wrap *)
-Theorem rr_even_divides av robin :
-  (0 < length av)%nat -> U32 mod N.of_nat (length av) = 0 -> forallb (fun b => b) av = true ->
-  forall j, (j < length av)%nat -> In (Some j) (rr_run av robin (length av)) /\
-  length (rr_run av robin (length av)) = length av.
-Proof.
-  intros Hn Hd Hall j Hj. rewrite rr_run_all_up_any by auto. split.
-  - pose proof (lin_idxs_cover (length av) (robin + 1) j Hj) as Hin.
-    apply in_map_iff in Hin as (i & Hi & Hs).
-    apply in_map. unfold rr_idxs. apply in_map_iff. exists i. split; [|exact Hs].
-    rewrite mod_mod_divides by (try assumption; lia). exact Hi.
-  - unfold rr_idxs. rewrite !map_length, seq_length. reflexivity.
-Qed.
-
-(* any other pool size: the window that straddles the wrap skips a host (3 hosts, counter 2^32-2:
-   slots 0, 0, 1) *)
-Theorem rr_even_wrap_refuted :
-  exists av robin j, forallb (fun b => b) av = true /\ (j < length av)%nat /\
-    ~ In (Some j) (rr_run av robin (length av)).
-Proof.
-  exists [true; true; true], 4294967294, 2%nat. split; [reflexivity|]. split; [cbn; lia|].
-  vm_compute. intros [H|[H|[H|[]]]]; discriminate.
-Qed.
 
 (* ---------- exact visit counts, wrap included ---------- *)
 Definition cnt (j : nat) (l : list nat) : nat := length (filter (Nat.eqb j) l).
@@ -176,9 +34,6 @@ Proof.
     assert (y = x) by (apply Hinj; [right; exact Hyl|left; reflexivity|exact Hy]). subst y. contradiction.
   - apply IH. intros a b Ha Hb. apply Hinj; right; assumption.
 Qed.
-
-Definition seg (n s : N) (L : nat) : list nat :=
-  map (fun i => N.to_nat ((s + N.of_nat i) mod n)) (seq 0 L).
 
 Lemma seg_inj n s i1 i2 : 0 < n -> N.of_nat i1 < n -> N.of_nat i2 < n ->
   (s + N.of_nat i1) mod n = (s + N.of_nat i2) mod n -> i1 = i2.
@@ -225,89 +80,29 @@ Proof.
     rewrite H1. specialize (IH r (s + N.of_nat n) Hr). lia.
 Qed.
 
-Lemma rr_idxs_split n robin m a :
-  robin < U32 -> N.of_nat a = N.min (U32 - (robin + 1)) (N.of_nat m) -> N.of_nat m <= U32 ->
-  rr_idxs n robin m = seg n (robin + 1) a ++ seg n 0 (m - a).
-Proof.
-  intros Hr Ha Hm. unfold rr_idxs.
-  replace m with (a + (m - a))%nat at 1 by lia.
-  rewrite seq_app, map_app. cbn [plus]. f_equal.
-  - unfold seg. apply map_ext_in. intros i Hi. apply in_seq in Hi.
-    rewrite (N.mod_small (robin + 1 + N.of_nat i) U32) by lia. reflexivity.
-  - unfold seg.
-    replace (seq a (m - a)) with (map (fun i => (a + i)%nat) (seq 0 (m - a))).
-    + rewrite map_map. apply map_ext_in. intros i Hi. apply in_seq in Hi.
-      do 2 f_equal. destruct (m - a)%nat eqn:E; [lia|].
-      assert (Haeq : N.of_nat a = U32 - (robin + 1)) by lia.
-      symmetry. apply N.mod_unique with (q := 1); lia.
-    + clear. generalize (m - a)%nat as L. revert a. intros a L. revert a.
-      induction L as [|k IH]; intros a; [reflexivity|].
-      cbn [seq map]. rewrite Nat.add_0_r. f_equal. rewrite <- seq_shift, map_map.
-      rewrite <- (IH (S a)). apply map_ext. intros x. lia.
-Qed.
-
-(* all hosts up, a window of k*n selections (at most one wrap inside): every host is chosen k times
-   if the counter does not wrap inside the window, and k-1, k or k+1 times if it does *)
-Theorem rr_counts av robin k j :
-  (0 < length av)%nat -> forallb (fun b => b) av = true -> robin < U32 ->
-  N.of_nat (k * length av) <= U32 -> (j < length av)%nat ->
-  let c := cnt j (rr_idxs (N.of_nat (length av)) robin (k * length av)) in
-  (k - 1 <= c <= k + 1)%nat /\ (robin + N.of_nat (k * length av) < U32 -> c = k).
-Proof.
-  intros Hn Hall Hr Hm Hj. set (n := length av) in *. cbv zeta.
-  set (a := N.to_nat (N.min (U32 - (robin + 1)) (N.of_nat (k * n)))).
-  assert (Ha : N.of_nat a = N.min (U32 - (robin + 1)) (N.of_nat (k * n))) by (unfold a; lia).
-  rewrite (rr_idxs_split (N.of_nat n) robin (k * n) a Hr Ha Hm), cnt_app.
-  assert (Hale : (a <= k * n)%nat) by lia.
-  pose proof (Nat.div_mod a n ltac:(lia)) as D1.
-  pose proof (Nat.mod_upper_bound a n ltac:(lia)) as B1.
-  pose proof (Nat.div_mod (k * n - a) n ltac:(lia)) as D2.
-  pose proof (Nat.mod_upper_bound (k * n - a) n ltac:(lia)) as B2.
-  set (q1 := (a / n)%nat) in *. set (r1 := (a mod n)%nat) in *.
-  set (q2 := ((k * n - a) / n)%nat) in *. set (r2 := ((k * n - a) mod n)%nat) in *.
-  clearbody q1 r1 q2 r2.
-  destruct (seg_count n j Hn Hj q1 r1 (robin + 1) B1) as [L1 U1].
-  destruct (seg_count n j Hn Hj q2 r2 0 B2) as [L2 U2].
-  replace (q1 * n + r1)%nat with a in * by lia.
-  replace (q2 * n + r2)%nat with (k * n - a)%nat in * by lia.
-  assert (Hsum : ((q1 + q2) * n + (r1 + r2) = k * n)%nat) by (clear - D1 D2 Hale; clearbody a n; lia).
-  assert (Hcases : (r1 + r2 = 0 /\ q1 + q2 = k)%nat \/ (r1 + r2 = n /\ q1 + q2 + 1 = k)%nat).
-  { clear - Hsum B1 B2. clearbody n.
-    assert (Hlo : (q1 + q2 <= k)%nat) by nia.
-    assert (Hhi : (k <= q1 + q2 + 1)%nat) by nia.
-    assert (Hk : (k = q1 + q2 \/ k = q1 + q2 + 1)%nat) by lia.
-    destruct Hk as [->| ->]; [left|right]; nia. }
-  split.
-  - destruct (Nat.eqb_spec r1 0); destruct (Nat.eqb_spec r2 0); lia.
-  - intros Hnw. assert (Hak : a = (k * n)%nat) by lia.
-    assert (Hz : (q2 = 0 /\ r2 = 0)%nat) by (clear - D2 Hak Hn; clearbody a n; nia).
-    destruct Hz as [-> ->].
-    assert (r1 = 0%nat) by (clear - Hcases B1; lia). subst r1.
-    cbn [Nat.eqb] in *. lia.
-Qed.
-
+(* all hosts up, a window of k*n selections starting at ANY counter value: every host is chosen
+   exactly k times *)
 Theorem rr_counts_run av robin k j :
-  (0 < length av)%nat -> forallb (fun b => b) av = true -> robin < U32 ->
-  N.of_nat (k * length av) <= U32 -> (j < length av)%nat ->
-  rr_run av robin (k * length av) = map Some (rr_idxs (N.of_nat (length av)) robin (k * length av)) /\
-  let c := cnt j (rr_idxs (N.of_nat (length av)) robin (k * length av)) in
-  (k - 1 <= c <= k + 1)%nat /\ (robin + N.of_nat (k * length av) < U32 -> c = k).
+  (0 < length av)%nat -> N.of_nat (length av) < U32 -> forallb (fun b => b) av = true ->
+  (j < length av)%nat ->
+  rr_run av robin (k * length av) =
+    map Some (seg (N.of_nat (length av)) (rr_start (N.of_nat (length av)) robin) (k * length av)) /\
+  cnt j (seg (N.of_nat (length av)) (rr_start (N.of_nat (length av)) robin) (k * length av)) = k.
 Proof.
-  intros Hn Hall Hr Hm Hj. split; [apply rr_run_all_up_any; assumption|].
-  apply rr_counts; assumption.
+  intros Hn Hu Hall Hj. split; [apply rr_run_all_up; assumption|].
+  destruct (seg_count (length av) j Hn Hj k 0%nat (rr_start (N.of_nat (length av)) robin) Hn) as [L U].
+  replace (k * length av + 0)%nat with (k * length av)%nat in L, U by (clear; lia).
+  change (Nat.eqb 0 0) with true in L, U. cbv iota in L, U. clear - L U. lia.
 Qed.
 
-Example rr_wrap_pow2 :
-  U32 mod 4 = 0 /\ fst (rr_select [false; false; true; false] 4294967294) = Some 2%nat.
-Proof. split; vm_compute; reflexivity. Qed.
-
-Example rr_wrap_miss_hit :
-  fst (rr_select [false; false; true] 4294967294) = None /\
-  snd (rr_select [false; false; true] 4294967294) = 1 /\
-  fst (rr_select [false; false; true] 1) = Some 2%nat.
+(* the counter values of the former defect (pool of 3, counter 2^32-2: the probes were 0, 0, 1) *)
+Example rr_wrap_hit :
+  rr_select [false; false; true] 4294967294 = (Some 2%nat, 2) /\
+  rr_select [false; false; true] 4294967295 = (Some 2%nat, 2) /\
+  rr_run [true; true; true] 4294967294 6 = [Some 0; Some 1; Some 2; Some 0; Some 1; Some 2]%nat.
 Proof. repeat split; vm_compute; reflexivity. Qed.
 
 Example rr_counts_wrap :
-  rr_idxs 3 4294967293 6 = [2; 0; 0; 1; 2; 0]%nat /\
-  cnt 0 (rr_idxs 3 4294967293 6) = 3%nat /\ cnt 1 (rr_idxs 3 4294967293 6) = 1%nat.
+  seg 3 (rr_start 3 4294967293) 6 = [2; 0; 1; 2; 0; 1]%nat /\
+  cnt 0 (seg 3 (rr_start 3 4294967293) 6) = 2%nat /\ cnt 1 (seg 3 (rr_start 3 4294967293) 6) = 2%nat.
 Proof. repeat split; vm_compute; reflexivity. Qed.
